@@ -24,9 +24,9 @@ func init() {
 		ID: "C13", Level: "fault_enumeration", Engine: "netsim(two-node link)",
 		Cases: func(tier string) int {
 			if tier == "thorough" {
-				return 30000
+				return 150000
 			}
-			return 1500
+			return 8000
 		},
 		Run:  runC13,
 		Rule: "one case = two nodes (OT sender, OT receiver, each with its own randomness stream) exchanging the real internal/ot messages over a simulated link that encodes every message with cbor and decodes it into the library's pre-shaped empty message; layer drawn from {random OT setup + transfer, correlated-OT setup, correlated OT, extended OT, additive OT, multiply, multiply x k on one setup with distinct nonces}; inputs from the lattice scalars {0,1,2,q-1,2^k,2^k-1,random}^2 and choice vectors {all-zero, all-one, alternating, single-bit, random} of 1..16 bytes. Fault catalogue = (layer x message of the exchange x field path x operator {bitflip, +-1, zero, boundary, swap siblings, drop, null, empty, array shrink/grow, random, truncate/extend}); 2/3 of the cases inject one alteration, 1/3 none. Oracle, no fault: pad = chosen pad; t_j = q_j xor choice_j*Delta; extended selections; additive shares sum to choice*alpha; multiply shares sum to a*b (reference big-integer arithmetic). Fault: the exchange ends in an error on some side or the relation still holds exactly; never a panic. Non-trivial = the layer's exchange actually ran (and, for fault cases, the alteration fired). Distinct = (layer, input classes, message, operator, path class).",
@@ -127,7 +127,7 @@ func (l *link) send(name string, src, dst interface{}) (err error) {
 				if len(apps) == 0 {
 					continue
 				}
-				n := apps[l.c.S.Draw(len(apps), "path")]
+				n := mut.PickNode(l.c.S, apps)
 				t2, res, ok := mut.Apply(l.c.S, mut.Clone(tree), n, op, nil)
 				if !ok {
 					continue
